@@ -192,4 +192,7 @@ def check(ctx):
     end_rules(ctx, prog)
     option_rules(ctx, prog)
     c02.setup_input_rules(ctx, prog, rule="C17.N3")
+    # "a blocking read waits only for the child": after a successful start the parent holds no copy of the child's ends - a write end
+    # of the output pipe left open in the parent keeps a blocking read waiting (and a nonblocking one at would-block) for ever (C02.S5)
+    c02.start_rules(ctx, prog)
     inventory_rules(ctx, prog)
